@@ -21,57 +21,91 @@ func emit(c *hlib.Ctx, kind string, sections []string, impl string) {
 
 // ---------------------------------------------------------------- diag3 / diagd3
 
-func diagString(s *soup3, m *model3d.Mesh, withOr bool) string {
+// diagString runs the diagnostics in the given order (a permutation of 0..3: NeedsRepair,
+// SingularVertices, InconsistentEdges, Orientable - the answers must not depend on which of them
+// ran before, e.g. on whether an earlier call has built the vertex index) and prints them in the
+// canonical order.
+func diagString(s *soup3, m *model3d.Mesh, withOr bool, order []int) string {
 	ids := s.idOf()
-	var res string
-	st := watchdog(func() {
-		nr := m.NeedsRepair()
-		var sv []int
-		for _, v := range m.SingularVertices() {
-			sv = append(sv, ids[v])
-		}
-		sort.Ints(sv)
-		var ie [][2]int
-		for _, e := range m.InconsistentEdges() {
-			ie = append(ie, [2]int{ids[e[0]], ids[e[1]]})
-		}
-		sort.Slice(ie, func(i, j int) bool {
-			if ie[i][0] != ie[j][0] {
-				return ie[i][0] < ie[j][0]
+	var nrS, svS, ieS, orS string
+	for _, which := range order {
+		var st string
+		switch which {
+		case 0:
+			st = watchdog(func() { nrS = b01(m.NeedsRepair()) })
+		case 1:
+			if !withOr {
+				// degenerate faces: SingularVertices depends on the map iteration order there
+				continue
 			}
-			return ie[i][1] < ie[j][1]
-		})
-		es := "-"
-		if len(ie) > 0 {
-			parts := make([]string, len(ie))
-			for i, e := range ie {
-				parts[i] = fmt.Sprintf("%d>%d", e[0], e[1])
+			st = watchdog(func() {
+				var sv []int
+				for _, v := range m.SingularVertices() {
+					sv = append(sv, ids[v])
+				}
+				sort.Ints(sv)
+				svS = intsStr(sv)
+			})
+		case 2:
+			st = watchdog(func() {
+				var ie [][2]int
+				for _, e := range m.InconsistentEdges() {
+					ie = append(ie, [2]int{ids[e[0]], ids[e[1]]})
+				}
+				sort.Slice(ie, func(i, j int) bool {
+					if ie[i][0] != ie[j][0] {
+						return ie[i][0] < ie[j][0]
+					}
+					return ie[i][1] < ie[j][1]
+				})
+				ieS = "-"
+				if len(ie) > 0 {
+					parts := make([]string, len(ie))
+					for i, e := range ie {
+						parts[i] = fmt.Sprintf("%d>%d", e[0], e[1])
+					}
+					ieS = strings.Join(parts, ",")
+				}
+			})
+		default:
+			if !withOr {
+				continue
 			}
-			es = strings.Join(parts, ",")
+			st = watchdog(func() { orS = b01(m.Orientable()) })
+			if st != "ok" {
+				if strings.HasPrefix(st, "panic:") {
+					orS = "panic"
+				} else {
+					orS = st
+				}
+				st = "ok"
+			}
 		}
-		if withOr {
-			res = fmt.Sprintf("nr=%s sv=%s ie=%s", b01(nr), intsStr(sv), es)
-		} else {
-			// degenerate faces: SingularVertices depends on the map iteration order there
-			res = fmt.Sprintf("nr=%s ie=%s", b01(nr), es)
+		if st != "ok" {
+			return st
 		}
-	})
-	if st != "ok" {
-		return st
 	}
 	if withOr {
-		or := "?"
-		st := watchdog(func() { or = b01(m.Orientable()) })
-		if st != "ok" {
-			if strings.HasPrefix(st, "panic:") {
-				or = "panic"
-			} else {
-				or = st
-			}
-		}
-		res += " or=" + or
+		return fmt.Sprintf("nr=%s sv=%s ie=%s or=%s", nrS, svS, ieS, orS)
 	}
-	return res
+	return fmt.Sprintf("nr=%s ie=%s", nrS, ieS)
+}
+
+// oSection records the order in which the diagnostics were called (part of the failing input of
+// a replay; the definitions do not depend on it, the driver ignores the section).
+func oSection(order []int) string { return "O " + intsStr(order) }
+
+// diagOrder: half of the cases in the declaration order (NeedsRepair first, on a mesh whose index
+// has not been built), the others in a random order.
+func diagOrder(c *hlib.Ctx) []int {
+	if c.Rng.Intn(2) == 0 {
+		return []int{0, 1, 2, 3}
+	}
+	o := c.Rng.Perm(4)
+	if o[0] != 0 {
+		c.Stat("diag3:needs-repair-asked-after-another-diagnostic", 1)
+	}
+	return o
 }
 
 func kindDiag3(c *hlib.Ctx) {
@@ -80,7 +114,8 @@ func kindDiag3(c *hlib.Ctx) {
 	s.compact()
 	c.Stat("diag3-src:"+strings.SplitN(label, "+", 2)[0], 1)
 	b := s.build()
-	out := diagString(s, b.m, true)
+	order := diagOrder(c)
+	out := diagString(s, b.m, true, order)
 	if strings.Contains(out, "nr=1") {
 		c.Stat("diag3:needs-repair", 1)
 	}
@@ -93,7 +128,7 @@ func kindDiag3(c *hlib.Ctx) {
 	if strings.Contains(out, "or=0") {
 		c.Stat("diag3:not-orientable", 1)
 	}
-	emit(c, "diag3", []string{s.iSection()}, out)
+	emit(c, "diag3", []string{s.iSection(), oSection(order)}, out)
 }
 
 func kindDiagD3(c *hlib.Ctx) {
@@ -130,7 +165,8 @@ func kindDiagD3(c *hlib.Ctx) {
 	}
 	c.Stat("diagd3:degenerate-faces", deg)
 	b := s.build()
-	emit(c, "diagd3", []string{s.iSection()}, diagString(s, b.m, false))
+	order := diagOrder(c)
+	emit(c, "diagd3", []string{s.iSection(), oSection(order)}, diagString(s, b.m, false, order))
 }
 
 // ---------------------------------------------------------------- clus3
